@@ -34,4 +34,12 @@ theorem C05_aligned_core (o : Options) (j : GCore.Journal) (halign : o.alignAmou
       canonIndent o + p.acct.length + 2 ≤ canonCol o j :=
   HL.Props.C04.C05_aligned_core o j halign t ht p hp a ha
 
+/-- **Well-formed edits, composed with the parser, core grammar.** -/
+theorem C05_edits_wellformed_core (o : Options) (j : GCore.Journal) (h : GCore.WF j = true)
+    (hsize : (GCore.print j).length < 4294967296) :
+    editsWellFormed (GCore.print j)
+      (formatText (HL.Pipeline.parseText Classes.go (GCore.print j)).1
+        (HL.Pipeline.parseText Classes.go (GCore.print j)).2 (GCore.print j) none o) = true :=
+  HL.Props.C04.C05_edits_wellformed_core o j h hsize
+
 end HL.Props.C05
